@@ -491,7 +491,16 @@ Fixpoint hist_why (prop : Z) (hc : hcfg) (prev : option (pass * cr)) (pre : cr) 
   | [] => 0
   | ps :: r => let w := pass_why prop hc pre ps (lenz r) in
                let w := if (w =? 0) && (prop =? 8) then resync_why prev ps else w in
-               if negb (w =? 0) then w * 100000 + idx else hist_why prop hc (Some (ps, pre)) (ps_cr ps) r (idx + 1)
+               (* a round that failed before it made any cloud call (the forced synchronisation itself could not read the
+                  cloud) leaves the synchronisation owed: the round after it is judged against the conflict round *)
+               let prev' := match prev with
+                            | Some (q, _) => if ps_confl q && ps_err ps && negb (ps_confl ps) && negb (ps_restarted ps)
+                                                && (match ps_calls ps with [] => true | _ => false end)
+                                                && list_eqb (enc_cloud (ps_cloud q)) (enc_cloud (ps_pre ps))
+                                                && list_eqb (enc_cloud (ps_pre ps)) (enc_cloud (ps_cloud ps))
+                                             then prev else Some (ps, pre)
+                            | None => Some (ps, pre) end in
+               if negb (w =? 0) then w * 100000 + idx else hist_why prop hc prev' (ps_cr ps) r (idx + 1)
   end.
 
 (* ---- kind 5: the pool maintenance loop on a node without pods (IpamLoop) ------------------------------------------- *)
